@@ -413,6 +413,7 @@ fn explore_key(seed: u64, steps: usize, nkeys: i32) -> Result<(), String> {
     if a != want { return Err(format!("[C07] {}-> tree {:?} expected {:?}", hist, a, want)); }
     if b != want { return Err(format!("[C07,C13] {}-> list {:?} expected {:?}", hist, b, want)); }
     if a.capacity() > 2 * stored + 8 { return Err(format!("[C19] {}-> export capacity {} for {} stored entries", hist, a.capacity(), stored)); }
+    if b.capacity() > 2 * model.len() + 8 { return Err(format!("[C19] {}-> list export capacity {} for {} stored entries", hist, b.capacity(), model.len())); }
     if let Some(m) = inv_fail { return Err(m); }
     Ok(())
 }
